@@ -79,7 +79,7 @@ PROPS["C12"] = {
     "pkgs": ["gbn", "mailbox"],
     "level": "exploration",
     "quick_budget": 60, "thorough_budget": 1800,
-    "rule": "Per run the tape picks the phase in which Close lands (constructor context cancelled mid-handshake, idle, mid-burst, full window with a blocked Send, inside a resend / sync wait, only Recv blocked) and the virtual instant inside it, who closes (client, server, both at the same instant), 1-3 concurrent callers per endpoint plus a repeated Close, the transport state at that moment (healthy, total blackout, send callbacks stalled until their context is cancelled), N, timeouts and keepalive. Oracles: Close returns within FIN timeout + 2 s; blocked and later local calls fail; the peer is closed with all its calls failed within FIN timeout + 2 x latency + 2 s on a healthy transport (keepalive bound on a dead one); afterwards no task spawned by the connection code is alive (task registry with spawn sites) and no ticker created by it still ticks (drain, advance one virtual hour, look). mb-close: the same for the mailbox connections in the full stack over the stub relay (Close by client / server / both, 1-2 concurrent callers, idle or mid-transfer; bounded return; both applications released; after listener and dialer shutdown nothing of gbn/mailbox is left). close-anytime also has an unread-backlog phase (more than a window of packets received that the application never reads) and, with the stalled transport, a send callback that serialises its callers; mb-close calls Close with the relay down or restarted in one run of five. fin-after-resent-handshake: the handshake needs one retransmission (first SYN or first SYNACK lost), then the peer closes without having sent anything: the FIN is the first packet of the data phase and must end the blocked Recv. mb-close: in half of the runs the relay stub's send side is asynchronous like a gRPC client stream (Send queues and returns; cancelling the stream's context drops what is still queued; CloseAndRecv flushes), and the peer must learn of the closure within 3 s, i.e. from the FIN itself, not from its keepalive." + SIG_RULE,
+    "rule": "Per run the tape picks the phase in which Close lands (constructor context cancelled mid-handshake, idle, mid-burst, full window with a blocked Send, inside a resend / sync wait, only Recv blocked) and the virtual instant inside it, who closes (client, server, both at the same instant), 1-3 concurrent callers per endpoint plus a repeated Close, the transport state at that moment (healthy, total blackout, send callbacks stalled until their context is cancelled), N, timeouts and keepalive. Oracles: Close returns within FIN timeout + 2 s; blocked and later local calls fail; the peer is closed with all its calls failed within FIN timeout + 2 x latency + 2 s on a healthy transport (keepalive bound on a dead one); afterwards no task spawned by the connection code is alive (task registry with spawn sites) and no ticker created by it still ticks (drain, advance one virtual hour, look). mb-close: the same for the mailbox connections in the full stack over the stub relay (Close by client / server / both, 1-2 concurrent callers, idle or mid-transfer; bounded return; both applications released; after listener and dialer shutdown nothing of gbn/mailbox is left). close-anytime also has an unread-backlog phase (more than a window of packets received that the application never reads) and, with the stalled transport, a send callback that serialises its callers; mb-close calls Close with the relay down or restarted in one run of five. fin-after-resent-handshake: the handshake needs one retransmission (first SYN or first SYNACK lost), then the peer closes without having sent anything: the FIN is the first packet of the data phase and must end the blocked Recv. mb-close: in half of the runs the relay stub's send side is asynchronous like a gRPC client stream (Send queues and returns; cancelling the stream's context drops what is still queued; CloseAndRecv flushes), and the peer must learn of the closure within 3 s, i.e. from the FIN itself, not from its keepalive. close-anytime also has a peer-stall transport (the send callback of the side that is NOT closing blocks until its context is cancelled while the closer's FIN still arrives) with a peer-burst phase (only the non-closing side sends, continuously); the last Close on each endpoint - for the peer, its application's own Close after the FIN - is bounded like every other." + SIG_RULE,
     "assumptions": ["leak oracle relies on the task registry of the simulator: every goroutine of the code under test is a registered task named by its spawn site"],
     "components": GBN_COMPONENTS,
     "expected_probes": ["c12.mb-closed-with-relay-down", "c12.peer-notified"],
@@ -149,7 +149,7 @@ PROPS["C03"] = {
     "pkgs": ["mailbox"],
     "level": "fault_enumeration",
     "quick_budget": 60, "thorough_budget": 1200,
-    "rule": "Enumerated: an XX handshake for each of the 112 positions at which the initiator's (or responder's) passphrase differs in exactly one bit; each KK key-mismatch shape x three auth payload sizes. Sampled: random equal/unequal passphrases (incl. 1-3 bit differences), correct and wrong static keys, all constructible (min,max) version ranges per side, auth payload sizes {0,1,498,4 KiB,1 MiB}, 1 in 40 runs at production scrypt cost, both start orders. Oracle on mismatch: the responder wrote zero bytes, both parties return errors (the initiator by its read deadline), no cipher states, no callbacks, nothing stored, no 16-byte window of the auth payload on the wire. kk-mismatch also covers a responder with a paired key on file that is capped below handshake version 2 facing a stranger who knows the old passphrase; concurrent-sessions runs 2-3 sessions with different passphrases plus strangers concurrently in one process." + SIG_RULE,
+    "rule": "Enumerated: an XX handshake for each of the 112 positions at which the initiator's (or responder's) passphrase differs in exactly one bit; each KK key-mismatch shape x three auth payload sizes. Sampled: random equal/unequal passphrases (incl. 1-3 bit differences), correct and wrong static keys, all constructible (min,max) version ranges per side, auth payload sizes {0,1,498,4 KiB,1 MiB}, 1 in 40 runs at production scrypt cost, both start orders. Oracle on mismatch: the responder wrote zero bytes, both parties return errors (the initiator by its read deadline), no cipher states, no callbacks, nothing stored, no 16-byte window of the auth payload on the wire. kk-mismatch also covers a responder with a paired key on file that is capped below handshake version 2 facing a stranger who knows the old passphrase; concurrent-sessions runs 2-3 sessions with different passphrases plus strangers concurrently in one process. kk-scripted-impostor (enumerated, 6 cases): a genuine KK initiator against a scripted responder that holds only the two static public keys, skips the act-1 check it cannot make, keeps its transcript in step and answers with an act 2 from the package's own writer; the initiator must refuse it." + SIG_RULE,
     "assumptions": ["'completes only if' is read as stated: matching handshakes that do not complete (incompatible version ranges, v0 payload too large) are counted, not flagged"],
     "components": NOISE_COMPONENTS,
     "expected_probes": ["c03.mismatch-rejected", "c03.match-completed", "c03.production-scrypt"],
